@@ -28,20 +28,9 @@ mod manually {
 
     impl<'xml> Deserialize<'xml> for GetBucketLocationOutput {
         fn deserialize(d: &mut Deserializer<'xml>) -> DeResult<Self> {
-            let mut location_constraint: Option<BucketLocationConstraint> = None;
-            d.for_each_element(|d, x| match x {
-                b"LocationConstraint" => {
-                    if location_constraint.is_some() {
-                        return Err(DeError::DuplicateField);
-                    }
-                    let val: BucketLocationConstraint = d.content()?;
-                    if !val.as_str().is_empty() {
-                        location_constraint = Some(val);
-                    }
-                    Ok(())
-                }
-                _ => Err(DeError::UnexpectedTagName),
-            })?;
+            // exactly one root element; an empty one means "no location constraint"
+            let val: BucketLocationConstraint = d.named_element("LocationConstraint", Deserializer::content)?;
+            let location_constraint = (!val.as_str().is_empty()).then_some(val);
             Ok(Self { location_constraint })
         }
     }
